@@ -18,4 +18,59 @@ PROPS = {
     },
 }
 
+PROPS.update({
+    "C02": {
+        "text": "Theorem C02_process_one_terminal: for every actor behaviour (any sequence of message-API calls, any ending, callbacks "
+                "and result store failing or not) the model of _Processor.process emits exactly one terminal broker call; "
+                "C02_disposition_table characterises it (iff) as ack/retry/reschedule/nack; C02_eager_nothing_more. The model "
+                "(Handle.v+Ladder.v) is tied to /repo by ~1.4k deliveries per quick run through a real Worker (cross product of "
+                "endings x eager actions x retry states x recurring x result x converter, plus concurrent mixes of up to 8).",
+        "note": "In-memory broker only; a raising broker call is excluded by hypothesis (no_faults); actor bodies that catch "
+                "BaseException are outside the model; thread/process-pool actors are not exercised.",
+        "technique": "Coq proof by invariant over API-call sequences + differential correspondence via a real Worker in virtual time",
+        "design": "DESIGN.md §3 C02",
+    },
+    "C04": {
+        "text": "Theorems over the retry chain of the ladder model for all N, all policies (arbitrary function), all outcome lists: "
+                "exactly N-tried+1 executions then nack/reschedule (chain_all_fail), counter strictly increasing and <= N "
+                "(chain_counter), success stops the chain, k-th retry due at failure instant + policy(k) (retry_due) and filed under "
+                "it by wait_until. Tied to /repo by ~400 jobs per quick run followed through all attempts by real Workers in "
+                "virtual time (all failure patterns for N<=3, jump and continuous modes).",
+        "note": "In-memory broker only; that the broker does not deliver before the due time is C05's claim (here only observed).",
+        "technique": "Coq proof by induction on the outcome list + differential correspondence of whole chains",
+        "design": "DESIGN.md §3 C04",
+    },
+    "C06": {
+        "text": "Theorems on prepare_reschedule/compute_next for all inputs: one successor (same id, single terminal call), counter "
+                "reset and ttl clock restarted, now < next <= now+period or = deferred_until while ahead, no slot twice, first run "
+                "deferred; the cadence clause is REFUTED on the faithful model (two witnesses) and characterised exactly "
+                "(cadence_iff, cadence_aligned, cadence_partial). Known finding cadence_grid_anchored_at_timestamp is reproduced "
+                "on the real code on every run. Tie: ~1.5k reschedule sequences under the pinned clock + ~120 recurring jobs end "
+                "to end per quick run.",
+        "note": "cron recurrence not modelled; in-memory broker only.",
+        "technique": "Coq proof (nia) + refutation witness by vm_compute + differential correspondence",
+        "design": "DESIGN.md §3 C06",
+    },
+    "C13": {
+        "text": "Theorems: the trace of a plain delivery is [disposition; store(success flag, value | exception text+type, configured ttl)] "
+                "(result_matches_outcome); set_result/set_exception overwrite (last wins, with C16_callback_order); results "
+                "disabled => no store event for any behaviour; a failing store leaves the broker calls of process unchanged for "
+                "every behaviour (store_failure_harmless, true since fix 54a2ceb); latest store wins. Tie: ~800 deliveries/chains "
+                "per quick run, every failing-store case paired with its non-failing twin.",
+        "note": "In-memory bucket broker only (Redis bucket encoding: C07); started<=finished relies on a non-decreasing clock.",
+        "technique": "Coq proof (store-independence lemma over call sequences) + differential correspondence",
+        "design": "DESIGN.md §3 C13",
+    },
+    "C16": {
+        "text": "Theorems over all sequences of message-API calls of any length: at most one broker call succeeds, afterwards every "
+                "action is refused and nothing reaches the broker (single_use, spent_handle_refuses); refusals and failing broker "
+                "calls leave the handle unchanged; category and budget rules; callback order with the lazily positioned store; "
+                "_NoAction ends the body. Tie: exhaustive call sequences up to length 3 (Message) / 2 (MessageDependency) x "
+                "categories x retry states, plus random longer ones with injected failures (~3.5k per quick run).",
+        "note": "In-memory broker; plain Message has no set_result/add_callback; actor bodies catching BaseException are outside the model.",
+        "technique": "Coq proof by induction over call sequences + exhaustive-to-a-length differential correspondence",
+        "design": "DESIGN.md §3 C16",
+    },
+})
+
 PENDING_REASON = "machinery for this property is not built yet in this revision of /verif (construction order: DESIGN.md §5)"
